@@ -800,6 +800,24 @@ func checkC07(ck *Check) {
 			}
 		}
 		var rem *Term
+		// the cloud step may take the options structure or just (group, count)
+		hasOptsArg := false
+		for _, av := range cs.Common().Args {
+			if types.Identical(av.Type(), a.TScaleOpts) {
+				hasOptsArg = true
+			}
+		}
+		if !hasOptsArg {
+			for _, av := range cs.Common().Args {
+				if isInteger(av.Type()) {
+					rem = ctx.Term(av)
+				}
+				if a.isPtrTo(av.Type(), a.TState) {
+					gt, want := ctx.Term(av), ck.groupTerm(fn)
+					ck.cond(want != nil && gt.Key() == want.Key(), "C07.R2", ck.P.siteKey(cs)+"/group", ck.P.instrPos(cs), funcID(fn), "the cloud step works on ScaleUp's own group", gt.String(), "")
+				}
+			}
+		}
 		for _, av := range cs.Common().Args {
 			if types.Identical(av.Type(), a.TScaleOpts) {
 				t := ctx.Term(av)
